@@ -299,6 +299,10 @@ func TestVerifC13Load(t *testing.T) {
 		}
 	}
 
+	// Values of the input that interact with constants the steps write
+	// (c13_loadvalues_test.go).
+	c13LoadValues(t, rep, docs, last)
+
 	// Large files (c13_loadlarge_test.go).
 	c13LoadLarge(t, rep, last)
 
